@@ -37,6 +37,7 @@ class _Runner(_Processor):
         self._limiter = asyncio.Semaphore(tasks_concurrency_limit)
         self._tasks_processed = 0
         self._tasks_started = 0
+        self.cancelled_tasks_finish_time = 1.0
 
         self._health_check_server = health_check_server
 
@@ -171,3 +172,14 @@ class _Runner(_Processor):
         if self._wait_for_cancel_task is not None:
             self._wait_for_cancel_task.cancel()
         self.cancel_event.set()
+        if self._tasks:
+            # the cancelled tasks give their messages back (reject): let them, before the consumers
+            # are finished underneath them - a task that was in the middle of its requeue when its
+            # consumer was finished left the message both returned and requeued
+            _, pending = await asyncio.wait(
+                self._tasks,
+                return_when=asyncio.ALL_COMPLETED,
+                timeout=self.cancelled_tasks_finish_time,
+            )
+            if pending:
+                logger.error("Some cancelled tasks did not finish when gracefully finishing runner.")
